@@ -665,6 +665,12 @@ func (m *monitor) runTask(t task) {
 	rngFor := func(layer string, extra ...int) *rand.Rand {
 		return mon.NewRNG(r.Seed, fmt.Sprintf("c12-%s-%s-%s-%v", layer, f.name(), s.name, extra))
 	}
+	if ifaceSchedules[s.name] {
+		m.runIfaces(f, s, rngFor)
+	}
+	if f.ifaceOnly {
+		return
+	}
 	r.Tab("schedule", s.name)
 	bufs1, bufs2 := readBufs, readBufs
 	if f.marmor {
